@@ -75,13 +75,17 @@ func (s *ServerKeyStore) allPairPrivateKeys(ring api.KeyRing) ([]*keys.PrivateKe
 	if err != nil {
 		return nil, err
 	}
-	privateKeys := make([]*keys.PrivateKey, len(seqnums))
-	for i, seqnum := range seqnums {
+	privateKeys := make([]*keys.PrivateKey, 0, len(seqnums))
+	for _, seqnum := range seqnums {
 		privateKey, err := ring.PrivateKey(seqnum, api.ThemisKeyPairFormat)
+		if err == api.ErrKeyDestroyed {
+			// a destroyed key is gone for good, the surviving ones are still offered
+			continue
+		}
 		if err != nil {
 			return nil, err
 		}
-		privateKeys[i] = &keys.PrivateKey{Value: privateKey}
+		privateKeys = append(privateKeys, &keys.PrivateKey{Value: privateKey})
 	}
 	return privateKeys, nil
 }
@@ -165,13 +169,17 @@ func (s *ServerKeyStore) allSymmetricKeys(ring api.KeyRing) ([][]byte, error) {
 	if err != nil {
 		return nil, err
 	}
-	symmetricKeys := make([][]byte, len(seqnums))
-	for i, seqnum := range seqnums {
+	symmetricKeys := make([][]byte, 0, len(seqnums))
+	for _, seqnum := range seqnums {
 		symmetricKey, err := ring.SymmetricKey(seqnum, api.ThemisSymmetricKeyFormat)
+		if err == api.ErrKeyDestroyed {
+			// a destroyed key is gone for good, the surviving ones are still offered
+			continue
+		}
 		if err != nil {
 			return nil, err
 		}
-		symmetricKeys[i] = symmetricKey
+		symmetricKeys = append(symmetricKeys, symmetricKey)
 	}
 	return symmetricKeys, nil
 }
